@@ -30,4 +30,14 @@ CHECKS = {
   note='Tolerances in DESIGN 3/C02; non-finite discipline asserted for closed-form shapes with clear margins only; '
        'Chebyshev normals are checked against the library\'s mis-scaled gradient inside the known finding\'s region.',
   design='3/C02'),
+ 'C03': dict(
+  technique='Hypothesis-generated lenses x the full cross product of aperture kind / field type / telecentric flag x '
+            'ray bundles, launch records compared with the ABCD entrance pupil; distributions enumerated by name with '
+            'generated counts',
+  level='Launch origin, direction, aim point on the reference entrance pupil, intensity/path/wavelength, documented '
+        'distribution counts and the rejection of the stated invalid combinations are checked on generated lenses and '
+        'rays. Counter-example search with per-combination coverage counts.',
+  note='Entrance pupil from the independent ABCD reference; vignetted aim points only required to shrink; telecentric '
+       'launch with object index 1.',
+  design='3/C03'),
 }
